@@ -4,7 +4,7 @@ from __future__ import annotations
 from hypothesis import strategies as st
 
 from .. import gen
-from ..cells import build, cells, cells_of_desc, cells_of_str, show, text_of
+from ..cells import build_any, cells, cells_of_desc, cells_of_str, show, text_of
 from ..common import Res, call, exc_str, hyp_campaign
 
 PROP = "C06"
@@ -26,7 +26,7 @@ def operand(spec):
     """spec: {"str": "..."} or {"desc": [...]} -> (real value, cells)"""
     if "str" in spec:
         return spec["str"], cells_of_str(spec["str"])
-    return build(spec["desc"], spec.get("build", "chunks")), cells_of_desc(spec["desc"])
+    return build_any(spec["desc"], spec.get("build", "chunks"), spec.get("obs", 0)), cells_of_desc(spec["desc"])
 
 
 def check_value(res, what, got, expected, **ctx):
@@ -48,10 +48,23 @@ def run_case(case):
     op = case["op"]
     if op == "slices":
         desc = case["desc"]
-        f = build(desc, case.get("build", "chunks"))
+        f = build_any(desc, case.get("build", "chunks"), case.get("obs", 0))
+        if case.get("obs") or case.get("build") in gen.DERIVED_BUILDS:
+            res.label("operand_with_history")
         base = cells_of_desc(desc)
         n = len(base)
-        bounds = [None] + list(range(-n - 2, n + 3))
+        if n <= 10:
+            bounds = [None] + list(range(-n - 2, n + 3))
+        else:
+            # long string: all bounds on, one before and one after every run boundary, the ends, past the ends - and
+            # their negative spellings - plus a spread of interior points
+            pts, acc = {0, 1, 2, n - 2, n - 1, n, n + 1, n + 2, n // 2, n // 3}, 0
+            for t, _ in desc:
+                acc += len(t)
+                pts.update((acc - 1, acc, acc + 1))
+            pts = sorted(p for p in pts if 0 <= p <= n + 2)
+            pts = pts[:: max(1, len(pts) // 14)][:14] + pts[-2:]
+            bounds = [None] + pts + sorted({p - n for p in pts if p - n < 0} | {-n - 2, -n - 1})
         run_of = []
         for ri, (t, a) in enumerate(desc):
             run_of.extend([ri] * len(t))
@@ -73,7 +86,7 @@ def run_case(case):
                 if a is not None and a < 0 or b is not None and b < 0:
                     res.label("negative_bound")
                 check_value(res, "slice", got, exp, start=a, stop=b, desc=desc)
-        for i in range(-n - 2, n + 3):
+        for i in (range(-n - 2, n + 3) if n <= 10 else [b for b in bounds if b is not None]):
             evals += 1
             got, e = call(lambda: f[i])
             try:
@@ -136,24 +149,24 @@ def run_case(case):
 
 
 def strategy():
-    d = gen.desc(alphabet=gen.NARROW + "é中", max_runs=5, max_len=3)
+    d = gen.desc_sized(alphabet=gen.NARROW + "é中", max_runs=5, max_len=3, big_runs=24, big_len=70)
     operand_s = st.one_of(
-        st.fixed_dictionaries({"desc": d, "build": st.sampled_from(["chunks", "fmtstr"])}),
-        st.fixed_dictionaries({"str": gen.text(gen.NARROW, 0, 4)}),
+        st.fixed_dictionaries({"desc": d, "build": gen.BUILDS, "obs": gen.OBS}),
+        st.fixed_dictionaries({"str": gen.plain_str(4)}),
     )
-    fs = st.fixed_dictionaries({"desc": d})
+    fs = st.fixed_dictionaries({"desc": d, "build": gen.BUILDS, "obs": gen.OBS})
     return st.one_of(
-        st.fixed_dictionaries({"op": st.just("slices"), "desc": d, "build": st.sampled_from(["chunks", "fmtstr"])}),
-        st.fixed_dictionaries({"op": st.just("slices"), "desc": d, "build": st.sampled_from(["chunks", "fmtstr"])}),
+        st.fixed_dictionaries({"op": st.just("slices"), "desc": d, "build": gen.BUILDS, "obs": gen.OBS}),
+        st.fixed_dictionaries({"op": st.just("slices"), "desc": d, "build": gen.BUILDS, "obs": gen.OBS}),
         st.fixed_dictionaries({"op": st.just("add"), "left": operand_s, "right": fs}),
         st.fixed_dictionaries({"op": st.just("add"), "left": fs, "right": operand_s}),
-        st.fixed_dictionaries({"op": st.just("mul"), "value": fs, "n": st.integers(0, 4)}),
-        st.fixed_dictionaries({"op": st.just("join"), "sep": fs, "items": st.lists(operand_s, max_size=5)}),
+        st.fixed_dictionaries({"op": st.just("mul"), "value": fs, "n": st.one_of(st.integers(0, 4), st.integers(0, 4), st.sampled_from([7, 16, 33, 64, 100]))}),
+        st.fixed_dictionaries({"op": st.just("join"), "sep": fs, "items": st.one_of(st.lists(operand_s, max_size=5), st.lists(operand_s, max_size=5), st.lists(operand_s, min_size=9, max_size=40))}),
     )
 
 
 def campaign(col, tier, seed, shard, nshards):
-    n = 4000 if tier == "quick" else 320000
+    n = 2400 if tier == "quick" else 320000
     hyp_campaign(col, strategy(), run_case, max(n // nshards, 100), seed * 100 + shard)
     if tier == "thorough":
         import sys as _sys
